@@ -4,6 +4,7 @@ import (
 	"bytes"
 	"encoding/json"
 	"fmt"
+	"hash/crc32"
 	"io"
 	"math/rand"
 	"time"
@@ -40,6 +41,7 @@ type writerCase struct {
 	Bs      int       `json:"bs"`
 	Steps   []step    `json:"steps"`
 	Msgs    []wireMsg `json:"msgs"`
+	Over    bool      `json:"over"` // the application also asks for control frames of 126 bytes
 }
 
 const alnum = "abcdefghijklmnopqrstuvwxyz0123456789"
@@ -158,9 +160,8 @@ func writeStep(c *websocket.Conn, st *step, data []byte, seed int) error {
 		}
 		cl := calls(st, seed)
 		if st.API == "RF" {
-			n, err := io.Copy(w, &partReader{data: data, calls: cl})
-			if err != nil || n != int64(len(data)) {
-				return fmt.Errorf("io.Copy into the message writer: n=%d err=%v, want %d", n, err, len(data))
+			if _, err := io.Copy(w, &partReader{data: data, calls: cl}); err != nil {
+				return fmt.Errorf("io.Copy into the message writer: %v", err)
 			}
 		} else {
 			rest := data
@@ -213,22 +214,24 @@ func readAll(c *websocket.Conn, pings *[][]byte) ([]rdMsg, error) {
 func sameMsgs(who string, got []rdMsg, want []wantMsg, msgs []wireMsg) error {
 	for k := range got {
 		if k >= len(want) {
-			return fmt.Errorf("%s delivered %d messages, %d were written (extra: type %d, %d bytes)", who, len(got), len(want), got[k].T, len(got[k].P))
+			return fmt.Errorf("%s does not return the sequence of messages that was written: %d messages instead of %d (extra: type %d, %d bytes)", who, len(got), len(want), got[k].T, len(got[k].P))
 		}
 		if got[k].T != msgs[k].T {
-			return fmt.Errorf("%s: message %d has type %d, written as %d", who, k+1, got[k].T, msgs[k].T)
+			return fmt.Errorf("%s does not return the sequence of messages that was written: message %d has type %d, written as %d", who, k+1, got[k].T, msgs[k].T)
 		}
 		if !want[k].eq(got[k].P) {
-			return fmt.Errorf("%s: message %d (type %d, %d bytes) arrived with a different payload: %s", who, k+1, msgs[k].T, len(want[k].B), rp.FirstDiff(got[k].P, want[k].B))
+			return fmt.Errorf("%s does not return the sequence of messages that was written: message %d (type %d, %d bytes) has a different payload: %s", who, k+1, msgs[k].T, len(want[k].B), rp.FirstDiff(got[k].P, want[k].B))
 		}
 	}
 	if len(got) < len(want) {
-		return fmt.Errorf("%s delivered %d of the %d messages written", who, len(got), len(want))
+		return fmt.Errorf("%s does not return the sequence of messages that was written: %d of %d messages", who, len(got), len(want))
 	}
 	return nil
 }
 
-func runWriter(c *rp.Ctx, i int, cs *writerCase) rp.Result {
+// v is a number derived from the case text: what the case leaves open (read segmentation, read buffer size)
+// is chosen from it, so that a case replayed alone behaves as in the batch.
+func runWriter(c *rp.Ctx, i, v int, cs *writerCase) rp.Result {
 	if len(cs.Steps) != len(cs.Msgs) {
 		rp.Bug("case has %d steps and %d messages", len(cs.Steps), len(cs.Msgs))
 	}
@@ -239,10 +242,10 @@ func runWriter(c *rp.Ctx, i int, cs *writerCase) rp.Result {
 	for _, st := range cs.Steps {
 		total += st.Size
 	}
-	if total < 300000 && (i+c.Seed)%2 == 0 {
-		b.In.Seg = transport.Random(int64(c.Seed)*7919+int64(i), 1500)
+	if total < 300000 && (v+c.Seed)%2 == 0 {
+		b.In.Seg = transport.Random(int64(c.Seed)*7919+int64(v), 1500)
 	}
-	rbs := []int{128, 256, 1024, 4096}[(i+c.Seed)%4]
+	rbs := []int{128, 256, 1024, 4096}[(v/2+c.Seed)%4]
 	snd := websocket.VerifNewConn(a, isServer, rbs, cs.Bs, cs.Comp)
 	peer := websocket.VerifNewConn(b, !isServer, rbs, 256, cs.Comp)
 	if cs.Comp {
@@ -270,6 +273,16 @@ func runWriter(c *rp.Ctx, i int, cs *writerCase) rp.Result {
 		snd.EnableWriteCompression(st.Wc)
 		if err := writeStep(snd, st, data, c.Seed); err != nil {
 			return rp.Fail(i, "message %d (%s, type %d, %d bytes, calls %v rand %d): write failed: %v", k+1, st.API, st.T, st.Size, st.Parts, st.Rand, err)
+		}
+	}
+	if cs.Over {
+		// whatever these calls return, a control frame of 126 bytes must not reach the wire (WsWire judges the wire)
+		snd.WriteControl(websocket.PongMessage, ctlPayload(126, 1), time.Time{})
+		snd.WriteMessage(websocket.PingMessage, ctlPayload(126, 2))
+		if w, err := snd.NextWriter(websocket.PongMessage); err == nil {
+			w.Write(ctlPayload(100, 3))
+			w.Write(ctlPayload(26, 4))
+			w.Close()
 		}
 	}
 	if err := snd.WriteControl(websocket.CloseMessage, websocket.FormatCloseMessage(websocket.CloseNormalClosure, ""), time.Time{}); err != nil {
@@ -309,17 +322,31 @@ func runWriter(c *rp.Ctx, i int, cs *writerCase) rp.Result {
 	pbody, _ := records(pframes, pjunk, len(pw), nil)
 	s2 := emitSession(c, "wswire", peerRole, nil, pbody)
 
+	info := map[string]interface{}{"s": []int{s1, s2}}
 	var ig []rdMsg
 	for _, m := range indep {
 		if !m.Ok {
-			return rp.Fail(i, "message %d does not inflate under RFC 7692 (append 00 00 ff ff, raw DEFLATE)%s", len(ig)+1, ctx())
+			return rp.Result{Info: info, What: fmt.Sprintf("message %d does not inflate under RFC 7692 (append 00 00 ff ff, raw DEFLATE)%s", len(ig)+1, ctx())}
 		}
 		ig = append(ig, rdMsg{m.Op, m.Payload})
 	}
 	if e := sameMsgs("the independent frame parser", ig, want, cs.Msgs); e != nil {
-		return rp.Fail(i, "%v%s", e, ctx())
+		return rp.Result{Info: info, What: fmt.Sprintf("%v%s", e, ctx())}
 	}
-	return rp.Result{OK: true, Info: map[string]interface{}{"s": []int{s1, s2}}, Nontriv: true}
+	return rp.Result{OK: true, Info: info, Nontriv: true}
+}
+
+// variant hashes the case in canonical form (vcheck re-serialises a case when it replays it alone).
+func variant(raw []byte) int {
+	var v interface{}
+	if err := json.Unmarshal(raw, &v); err != nil {
+		panic(err)
+	}
+	b, err := json.Marshal(v)
+	if err != nil {
+		panic(err)
+	}
+	return int(crc32.ChecksumIEEE(b) & 0x7fffffff)
 }
 
 func init() {
@@ -328,6 +355,6 @@ func init() {
 		if err := json.Unmarshal(raw, &cs); err != nil {
 			panic(err)
 		}
-		return runWriter(c, i, &cs)
+		return runWriter(c, i, variant(raw), &cs)
 	}
 }
